@@ -575,6 +575,42 @@ fn worker_channel_probe() -> Option<Failure> {
 /// C14 "writers proceed eventually", the L0 halt: a writer is parked while its keyspace has 30 or more L0 runs
 /// (`check_write_halt`) and must go on once compaction has brought the number down.  31 flushes with an L0
 /// threshold of 200 (no compaction kicks in), a writer that is halted, `major_compact`, and the writer has to return.
+/// C14, lock order of the two rotations: a memtable rotation's housekeeping (walk over all keyspaces under the
+/// keyspaces table's read lock, then journal maintenance under the journal manager's write lock) against a journal
+/// rotation (journal lock -> journal manager -> keyspaces table).  The rotating thread is parked inside its walk
+/// by holding the version-history lock of an idle keyspace; then the journal rotation starts; then the gate opens.
+/// Both must finish and a plain insert must return.
+fn rotation_lock_order_probe() -> Option<Failure> {
+    use std::sync::atomic::{AtomicBool, Ordering};
+    use fjall::AbstractTree;
+    let scratch = Scratch::new("lockord");
+    let db = Database::builder(scratch.join("db")).worker_threads_unchecked(0).open().ok()?;
+    let a = db.keyspace("a", KeyspaceCreateOptions::default).ok()?;
+    let b = db.keyspace("b", KeyspaceCreateOptions::default).ok()?;
+    a.insert("k0", "v0").ok()?;
+    b.insert("k0", "v0").ok()?;
+    let gate = b.tree.get_version_history_lock();
+    let flags: Vec<Arc<AtomicBool>> = (0..3).map(|_| Arc::new(AtomicBool::new(false))).collect();
+    let (a1, f0) = (a.clone(), flags[0].clone());
+    let r = std::thread::spawn(move || { let _ = a1.rotate_memtable(); f0.store(true, Ordering::Release); });
+    let t0 = Instant::now();
+    while a.sealed_memtable_count() == 0 && t0.elapsed() < Duration::from_secs(20) { std::thread::sleep(Duration::from_millis(5)); }
+    std::thread::sleep(Duration::from_millis(300));
+    if flags[0].load(Ordering::Acquire) { drop(gate); let _ = r.join(); return None; } // the walk does not stop at the gate: nothing to probe
+    let (db1, f1) = (db.clone(), flags[1].clone());
+    let j = std::thread::spawn(move || { let _ = fjall::verif::verif_rotate_journal(&db1); f1.store(true, Ordering::Release); });
+    std::thread::sleep(Duration::from_millis(500));
+    drop(gate);
+    let (a2, f2) = (a.clone(), flags[2].clone());
+    let w = std::thread::spawn(move || { let _ = a2.insert("k1", "v1"); f2.store(true, Ordering::Release); });
+    let t1 = Instant::now();
+    while flags.iter().any(|f| !f.load(Ordering::Acquire)) && t1.elapsed() < Duration::from_secs(30) { std::thread::sleep(Duration::from_millis(10)); }
+    let st: Vec<bool> = flags.iter().map(|f| f.load(Ordering::Acquire)).collect();
+    if st.iter().all(|x| *x) { let _ = r.join(); let _ = j.join(); let _ = w.join(); return None; }
+    std::mem::forget(r); std::mem::forget(j); std::mem::forget(w); std::mem::forget(a); std::mem::forget(b); std::mem::forget(db); std::mem::forget(scratch);
+    Some(Failure { kind: "impl-vs-oracle", detail: format!("a memtable rotation (parked in its walk over the keyspaces, then released) overlapping a journal rotation: after 30 s memtable rotation returned = {}, journal rotation returned = {}, a plain insert returned = {} - they wait for each other and the journal lock is never released", st[0], st[1], st[2]), witness: None })
+}
+
 fn l0_halt_probe(lean: &mut Lean) -> Option<Failure> {
     use std::sync::atomic::{AtomicBool, Ordering};
     let scratch = Scratch::new("l0halt");
@@ -674,6 +710,7 @@ fn main() {
     if replay.is_none() { if let Some(f) = stall_probe() { all.push((0, f)); } *hist.entry("stall-probe".to_string()).or_insert(0) += 1; }
     if replay.is_none() { if let Some(f) = worker_channel_probe() { all.push((0, f)); } *hist.entry("worker-channel-probe".to_string()).or_insert(0) += 1; }
     if replay.is_none() && mode_c14 { if let Some(f) = witness_f27() { all.push((0, f)); } *hist.entry("witness-f27".to_string()).or_insert(0) += 1; }
+    if replay.is_none() && mode_c14 { if let Some(f) = rotation_lock_order_probe() { all.push((0, f)); } *hist.entry("rotation-lock-order-probe".to_string()).or_insert(0) += 1; }
     if replay.is_none() && mode_c14 { if let Some(f) = l0_halt_probe(&mut lean) { all.push((0, f)); } *hist.entry("l0-halt-probe".to_string()).or_insert(0) += 1; }
     for cs in seeds {
         let res = std::panic::catch_unwind(std::panic::AssertUnwindSafe(|| run_case(cs, &mut lean, &mut hist, &mut samples, thorough, nofloor)));
